@@ -177,6 +177,11 @@ def ev(e, val):
         if any(isinstance(x, tuple) and x and x[0] == "trap" for x in args):
             return args[0]
         return ("fn", e[1], args)
+    if k == "trunc_trap":
+        a = ev(e[1], val)
+        if math.isnan(a) or a >= 9.223372036854775807e18 or a < -9.223372036854775808e18:
+            return ("trap", "invalid conversion to integer")
+        return int(a)
     if k == "ftrunc":
         a = ev(e[1], val)
         return a if (math.isnan(a) or math.isinf(a)) else float(math.trunc(a)) if a != 0 else a
@@ -334,6 +339,8 @@ def show_t(e):
         return "(%s ? %s : %s)" % (show_t(e[1]), show_t(e[2]), show_t(e[3]))
     if k == "ucvt":
         return "%s(%s)" % (e[2], show_t(e[1]))
+    if k == "trunc_trap":
+        return "trunc_trapping(%s)" % show_t(e[1])
     if k == "ftrunc":
         return "trunc(%s)" % show_t(e[1])
     return show(e)
@@ -360,6 +367,8 @@ W_UN = {
     "F64ConvertI32S": lambda a: ("ucvt", a, "f64"),
     "I64ExtendI32U": lambda a: ("ucvt", a, "i64"),
     "I64TruncSatF64S": lambda a: ("cast", "FloatToInt", a, "f64", "i64"),
+    "I64TruncF64S": lambda a: ("trunc_trap", a),
+    "I64TruncF64U": lambda a: ("trunc_trap", a),
     "F64ConvertI64S": lambda a: ("cast", "IntToFloat", a, "i64", "f64"),
     "I32Eqz": lambda a: ("un", "not", a, "bool"),
     "I64Eqz": lambda a: ("bin", "eq", a, ("k", 0, "i64"), "i64"),
@@ -739,7 +748,9 @@ def run(ck, facts, cg, anchors, tier):
     ck.floor(R, "operators_compared", compared, 25)
     ck.setcount("operators_not_comparable", len(skipped))
     for m, why in skipped:
-        ck.note("not compared: %s (%s)" % (m, why))
+        # the set of single-instruction operators is the rule's anchor: an operator whose template can no longer be
+        # extracted would silently drop out of the comparison
+        ck.bad(R, "unanalysable|%s" % m, "operator %s is lowered to one VM instruction but its template cannot be extracted for comparison (%s)" % (m, why), "%s ; %s" % (vd.fn.where(), wl.fn.where()))
     # truthiness of conditional jumps: VM JmpIfNeg vs wasm `if`
     truthiness(ck, facts, vd, wl, bl)
 
